@@ -80,6 +80,7 @@ def run(ck, rng, tier, prop="C01"):
         ck.count("kind %s" % kind)
     outs = vf.run_driver_cases(ck, exe, lines, lambda k: ("PCA", {"X": meta[k][0], "scaling": meta[k][2], "npc": meta[k][3], "threads": meta[k][4]}),
                                header="cap 400000\n", timeout=1500)
+    vf.reuse_scan(ck, "drv_pca", outs, lambda k: {"X": meta[k][0], "scaling": meta[k][2], "npc": meta[k][3]})
     checks = vf.Checks()
     cm, cv = vf.coq_mat, vf.coq_vec
     for i, (mt, o) in enumerate(zip(meta, outs)):
